@@ -15,6 +15,17 @@ CLAIMED = {
               '(layout-probed); windows; JDN float text outside'),
         technique='CBMC bounded model checking of lib/date-core.c against a reference calendar, year-window case split',
         design='3/C01'),
+    'C02': dict(
+        text=('Bounded model checking of lib/date-core.c: dt_dconv round trips for every ordered pair of '
+              '{ymd,ymcw,ywd,yd,daisy} per year window; Umm-al-Qura table round trip and successor relation '
+              'for every day inside the table; for every date specifier the text printed by dt_strfd is '
+              'compared byte-wise between the ymd-held value and each other representation, and between '
+              'a specifier alone and after each record-filling predecessor. Formats are concrete, days symbolic.'),
+        note=('reference day construction h/ref.h; formats enumerated (the program), not symbolic; '
+              'Hijri month-12 fixup path excluded (row-overrun idiom not expressible in array semantics); '
+              '47 (specifier, representation) pairs are listed known findings'),
+        technique='CBMC bounded model checking of dt_dconv/dt_strfd per (format, representation, year window)',
+        design='3/C02'),
 }
 
 NA = {}
